@@ -156,6 +156,9 @@ func (w *World) sortOf(t types.Type) string {
 	}
 	switch u := t.(type) {
 	case *types.TypeParam:
+		if integerTypeParam(u) {
+			return "Int" // every type of the constraint's type set is an integer type (width unknown)
+		}
 		return "T"
 	case *types.Named:
 		if st, ok := u.Underlying().(*types.Struct); ok {
@@ -273,6 +276,62 @@ func intRange(t types.Type) (lo, hi string, ok bool) {
 		return "(- 128)", "128", true
 	}
 	return "", "", false
+}
+
+// integerTypeParam: the constraint of the type parameter admits integer types only
+// (constraints.Integer and the like). Its values are mathematical integers in SMT; no
+// overflow obligations are generated for them, the width is not known.
+func integerTypeParam(tp *types.TypeParam) bool {
+	iface, ok := tp.Constraint().Underlying().(*types.Interface)
+	if !ok {
+		return false
+	}
+	return integerTypeSet(iface, 0)
+}
+
+func integerTypeSet(iface *types.Interface, depth int) bool {
+	if depth > 8 {
+		return false
+	}
+	found := false
+	for i := 0; i < iface.NumEmbeddeds(); i++ {
+		switch e := types.Unalias(iface.EmbeddedType(i)).(type) {
+		case *types.Union:
+			for j := 0; j < e.Len(); j++ {
+				tt := e.Term(j).Type()
+				if in, ok := tt.Underlying().(*types.Interface); ok {
+					if !integerTypeSet(in, depth+1) {
+						return false
+					}
+					found = true
+					continue
+				}
+				b, ok := tt.Underlying().(*types.Basic)
+				if !ok || b.Info()&types.IsInteger == 0 {
+					return false
+				}
+				found = true
+			}
+		case *types.Named:
+			in, ok := e.Underlying().(*types.Interface)
+			if !ok || !integerTypeSet(in, depth+1) {
+				return false
+			}
+			found = true
+		case *types.Interface:
+			if !integerTypeSet(e, depth+1) {
+				return false
+			}
+			found = true
+		default:
+			b, ok := e.Underlying().(*types.Basic)
+			if !ok || b.Info()&types.IsInteger == 0 {
+				return false
+			}
+			found = true
+		}
+	}
+	return found
 }
 
 func isUnsigned(t types.Type) bool {
